@@ -334,6 +334,12 @@ class Verdict:
         self.known_hits = []
         self.known = [k for k in load_known() if k.get("property") == pid and k.get("kind") == "finding"]
         self.diag = {}
+        import glob
+        for f in glob.glob(os.path.join(REPLAYS, f"{pid}-*.json")):
+            try:
+                os.remove(f)
+            except OSError:
+                pass
 
     def add(self, clause, where, detail=None):
         for k in self.known:
